@@ -1,14 +1,12 @@
 import os as _os
 SPEC = dict(
     harness="C58_ipcmsg.cc",
-    # C58_OVERSIZE=1 ./check C58 ... drops the KNOWN-FINDING assumption (received data.size <= maxSize) to show the counterexample
-    defines=(["C58_INCLUDE_OVERSIZE=1"] if _os.environ.get("C58_OVERSIZE") else []),
     units=SBUF + ["src/ipc/TypedMsgHdr.cc", "src/String.cc"],
     entries=dict(
         quick=[
             dict(name="c58_roundtrip", bounds="type any non-zero int; 0..2 items, each putInt(any int) / putPod(struct{char,int32,uint64}, any values) / putString(0..3 arbitrary bytes) / putFixed(0..3 arbitrary bytes); optional putFd(any int); transport = copy of msg_iov[0] and the control buffer into a prepForReading() message, sent directly or as the copy UdsSender makes", reach=["done", "fd", "badfd"], sample_every=29),
             dict(name="c58_capacity", bounds="putFixed of 4089..4096 bytes (first/last 8 symbolic), then one item: int, POD(16 bytes), string or fixed blob of 0..5 arbitrary bytes", reach=["fits", "full"], sample_every=7),
-            dict(name="c58_adversarial", bounds="received DataBuffer: type_ any int, size any 64-bit value <= maxSize (larger: KNOWN-FINDING candidate), 1..2 get* calls from getInt/getString/getPod(16 bytes)/getFixed(0,1,3,4092,4096,4097); content symbolic at the first/last 3 bytes of every part; string length fields any int outside (3,4091)", reach=["accepted", "rejected"], sample_every=53),
+            dict(name="c58_adversarial", bounds="received DataBuffer: type_ any int, size any 64-bit value (also far beyond maxSize), 1..2 get* calls from getInt/getString/getPod(16 bytes)/getFixed(0,1,3,4092,4096,4097); content symbolic at the first/last 3 bytes of every part; string length fields any int outside (3,4091)", reach=["accepted", "rejected"], sample_every=53),
             dict(name="c58_adversarial_raw", bounds="received DataBuffer: type_ any int, 12 fully symbolic content bytes (rest zero), claimed size 0..16, 1..2 get* calls from getInt/getString/getPod/getFixed(0,1,3)", reach=["accepted", "rejected"], sample_every=17),
         ],
         thorough=[
@@ -20,6 +18,5 @@ SPEC = dict(
     timeout=dict(quick=170, thorough=900),
     stubs=["sendmsg()/recvmsg() are modelled by transport(): byte copy of msg_iov[0] (iov_len bytes) and of msg_control (msg_controllen bytes) into a prepForReading() message",
            "memAllocBuf family (harness/common/stubs.cc) behind String", "debugs() disabled"],
-    outside="real socket I/O and kernel truncation flags (MSG_TRUNC/MSG_CTRUNC); messages with more parts than the bound; strings whose length lies strictly between the boundary windows; the typed messages built on top (StrandCoord, Mgr::*, Snmp::*); received data.size > maxSize (KNOWN-FINDING candidate, excluded by an assumption)",
-    assumptions=["received data.size <= TypedMsgHdr::maxSize (a larger received size is a KNOWN-FINDING candidate: getRaw() trusts it)"],
+    outside="real socket I/O and kernel truncation flags (MSG_TRUNC/MSG_CTRUNC); messages with more parts than the bound; strings whose length lies strictly between the boundary windows; the typed messages built on top (StrandCoord, Mgr::*, Snmp::*)",
 )
